@@ -341,6 +341,19 @@ func (e *exec) readFile() string {
 // (a lock that is never released); generous, so that CPU load cannot trigger it.
 const opTimeout = 30 * time.Second
 
+// opTimeoutFor: a stress op runs thousands of sets (each saving the file when persistence is on) against getter
+// goroutines; under the race detector on a loaded machine 3000 sets once took more than 30 s (thorough tier, unchanged
+// tree). Its limit grows with its size; every other op keeps opTimeout.
+func opTimeoutFor(line string) time.Duration {
+	f := strings.Fields(line)
+	if len(f) == 4 && f[0] == "stress" {
+		if n, err := strconv.Atoi(f[3]); err == nil && n > 0 {
+			return opTimeout + time.Duration(n)*100*time.Millisecond
+		}
+	}
+	return opTimeout
+}
+
 // Do runs one op under a watchdog; after a panic or hang the rest of the case is skipped (the
 // package may be left with a locked option).
 func (e *exec) Do(line string) string {
@@ -363,7 +376,7 @@ func (e *exec) Do(line string) string {
 			processPoisoned = true
 		}
 		return out
-	case <-time.After(opTimeout):
+	case <-time.After(opTimeoutFor(line)):
 		e.poisoned = true
 		processPoisoned = true
 		return "HANG"
